@@ -59,6 +59,12 @@ def pair_types(ctx):
     P("remove_hash||read(k)", prep_old, [{"op": "remove_hash", "cache": "<C>", "sri": sOLD}, {"op": "read", "cache": "<C>", "key": "k"}], ["k"], [sOLD])
     P("write_hash(A)||write_hash(A)", prep_warm, [{"op": "write_hash", "cache": "<C>", "data": ctx.data(A)},
                                                   {"op": "write_hash", "cache": "<C>", "data": ctx.data(A)}], [], [sA])
+    P("W(k2,OLD)||read(k)-shared-content", prep_old, [W(ctx, "k2", OLD, 10), {"op": "read", "cache": "<C>", "key": "k"}], ["k", "k2"], [sOLD])
+    P("write_hash(OLD)||read_hash(OLD)-present", prep_old, [{"op": "write_hash", "cache": "<C>", "data": ctx.data(OLD)},
+                                                            {"op": "read_hash", "cache": "<C>", "sri": sOLD}], ["k"], [sOLD])
+    long_hist = [W(ctx, "k", b"gen-%d" % g, 100 + g) for g in range(24)] + prep_old
+    P("W(k,A)||metadata(k)-after-25-records", long_hist, [W(ctx, "k", A, 10), {"op": "metadata", "cache": "<C>", "key": "k"}], ["k"], [sA, sOLD])
+    P("W(k,A)||W(k,B)-after-25-records", long_hist, [W(ctx, "k", A, 10), W(ctx, "k", B, 11)], ["k"], [sA, ref.sri("sha256", B)])
     P("W(k,A)||list", prep_old, [W(ctx, "k", A, 10), {"op": "list", "cache": "<C>"}], ["k"], [sA, sOLD])
     # triples
     P("W(k,A)||W(k,B)||W(k,C)", prep_warm, [W(ctx, "k", A, 10), W(ctx, "k", B, 11), W(ctx, "k", b"value C!", 12)], ["k"],
